@@ -25,7 +25,7 @@ EXPLANATION = (
 NOT_DECIDED = ["bytes identical to the embedded file; content type; pixel size", "that no image is invented (relationship parsing is value level)", "which image records a reader filters out or reuses by identity (orphan relationships, per-document caches keyed by object number)"]
 TRUSTED = ["may-raise table (listed in the explanation); string methods, slicing, dataclass constructors and the dimension sniffers are assumed not to raise",
            "CFG path enumeration (cap 4096 paths per loop body; a capped loop is residual)"]
-FLOORS = {"C14-JPEG": 8, "C14-PAIR": 12, "C14-BYTES": 20, "C14-VIEW": 6, "C14-REF": 1, "C14-CHAIN": 8, "C14-TYPE": 3, "C14-HEX": 3}
+FLOORS = {"C14-JPEG": 8, "C14-PAIR": 12, "C14-BYTES": 20, "C14-VIEW": 6, "C14-REF": 3, "C14-CHAIN": 8, "C14-TYPE": 3, "C14-HEX": 3}
 
 MAY_RAISE_CALLS = {"read_bytes", "get_image_data", "read_xml_root", "read_text", "read", "open_stream", "fromhex", "unpack", "unpack_from", "b64decode", "a2b_hex", "unhexlify", "decompress"}
 MAY_RAISE_FUNCS = {"int", "float", "bytes.fromhex", "struct.unpack", "struct.unpack_from", "base64.b64decode"}
@@ -331,6 +331,17 @@ def rule_ref(ctx: Ctx) -> RuleReport:
             rep.fail(Finding("C14-REF", PPTX, f.qual, t, f"a '..' component is honoured only `if {t}`: targets that climb out of /ppt (../../media/x.png) resolve to the wrong part, so another image's bytes (or none) are returned", line=p.lineno))
     if not pops:
         rep.fail(Finding("C14-REF", PPTX, f.qual, body_txt[:120], "'..' components are no longer resolved", line=f.node.lineno))
+    # EPUB: manifest hrefs are IRI references relative to the OPF document: percent-decoded, fragment removed, dot segments resolved
+    EPUBX = X + "epub_extractor.py"
+    rh = ctx.p.func(EPUBX, "_EpubContext.resolve_href")
+    rep.unit(rh.key)
+    calls = {(dotted(c.func) or "").split(".")[-1] for c in ast.walk(rh.node) if isinstance(c, ast.Call)}
+    need = {"unquote": "percent-encoded names ('chapter%201.xhtml') are not decoded", "normpath": "parent-relative hrefs ('../images/a.png') are not resolved"}
+    for fn_, why in need.items():
+        if fn_ in calls:
+            rep.ok({"epub_href": fn_})
+        else:
+            rep.fail(Finding("C14-REF", EPUBX, rh.qual, f"href not passed through {fn_}", f"resolve_href does not apply {fn_}: {why}, so the chapter or image is not found in the package and is silently left out", line=rh.node.lineno))
     return rep
 
 
